@@ -333,7 +333,10 @@ type c09cb struct {
 }
 
 type c09update struct {
-	name  string
+	// rewind is the height the update rewinds to (-1: none); from is the
+	// length of the callback log when the call was made
+	rewind, from int
+	name   string
 	apply func(r *c09ref)
 	task  *verifbubble.Task
 }
@@ -436,8 +439,32 @@ func c09Run(c *verifeng.Chooser, f *c09fix, depth int) {
 		}
 		return false
 	}
+	// a rewind that an Update call has accepted is owed: from the position
+	// the rescan had when the call returned, the walk has to go back to the
+	// rewind height (or be there already)
+	type c09owe struct {
+		h, from int
+		name    string
+		ok      bool
+	}
+	var owed []*c09owe
+	var hist []int // hist[i]: height of the current block before callback i
+	noteCursor := func(idx int) {
+		if idx == len(hist) {
+			hist = append(hist, int(cursor.height))
+		} else if idx < len(hist) {
+			hist[idx] = int(cursor.height)
+		}
+		for _, o := range owed {
+			if !o.ok && idx >= o.from && int(cursor.height) <= o.h {
+				o.ok = true
+			}
+		}
+	}
 	judge := func() bool {
+		defer func() { noteCursor(judged) }()
 		for ; judged < len(log); judged++ {
+			noteCursor(judged)
 			cb := log[judged]
 			b, ok := f.byHash[cb.hash]
 			if !ok {
@@ -553,6 +580,15 @@ func c09Run(c *verifeng.Chooser, f *c09fix, depth int) {
 		for _, u := range inflight {
 			if u.task.Done() {
 				u.apply(must)
+				if u.rewind >= 0 && u.task.Err == nil {
+					o := &c09owe{h: u.rewind, from: u.from, name: u.name}
+					// callbacks between the call and now have been judged
+					// already
+					for i := o.from; i < len(hist); i++ {
+						o.ok = o.ok || hist[i] <= o.h
+					}
+					owed = append(owed, o)
+				}
 			} else {
 				keep = append(keep, u)
 			}
@@ -608,12 +644,21 @@ func c09Run(c *verifeng.Chooser, f *c09fix, depth int) {
 		if advances < 4 {
 			menu = append(menu, ev{"advance 100ms (retry timer)", func() bool { advances++; time.Sleep(100 * time.Millisecond); return true }})
 		}
-		if updates < 2 && len(inflight) == 0 {
+		// (a second update may be handed in while the first still waits for
+		// the rescan goroutine, which is parked in a chain query)
+		if updates < 2 && (len(inflight) == 0 || (len(inflight) == 1 && ch.waiting > 0)) {
 			upd := func(name string, apply func(r *c09ref), o ...UpdateOption) {
+				if len(inflight) == 1 && inflight[0].name == name {
+					return
+				}
+				rw := -1
+				if i := strings.Index(name, "Rewind to "); i >= 0 {
+					fmt.Sscanf(name[i:], "Rewind to %d", &rw)
+				}
 				menu = append(menu, ev{"Update(" + name + ")", func() bool {
 					updates++
 					apply(may)
-					u := &c09update{name: name, apply: apply}
+					u := &c09update{name: name, apply: apply, rewind: rw, from: len(log)}
 					u.task = verifbubble.Go("Update", func() (any, error) { return nil, rescan.Update(o...) })
 					inflight = append(inflight, u)
 					verifbubble.Wait()
@@ -631,6 +676,7 @@ func c09Run(c *verifeng.Chooser, f *c09fix, depth int) {
 			upd("AddInputs pre-watched outpoint", func(r *c09ref) { r.inputs[f.preOut] = true },
 				AddInputs(InputWithScript{OutPoint: f.preOut, PkScript: f.scriptZ}))
 			upd("Rewind to 1", func(r *c09ref) {}, Rewind(1))
+			upd("Rewind to 3", func(r *c09ref) {}, Rewind(3))
 		}
 		e := menu[c.ChooseFree(len(menu), "event")]
 		c.Step("%s%s", e.name, burst.Begin())
@@ -685,6 +731,26 @@ func c09Run(c *verifeng.Chooser, f *c09fix, depth int) {
 	for _, u := range inflight {
 		c.Fail("stuck", "update-blocks", "Rescan.Update(%s) has not returned although the rescan is idle", u.name)
 		return
+	}
+	for _, o := range owed {
+		if !o.ok && !done {
+			var walk []string
+			for i, cb := range log {
+				w := "-"
+				if cb.connected {
+					w = "+"
+				}
+				if i == o.from {
+					walk = append(walk, "[Update]")
+				}
+				if b, ok := f.byHash[cb.hash]; ok {
+					w += b.label
+				}
+				walk = append(walk, w)
+			}
+			c.Fail("C09", "C09:rewind-not-performed", "Update(%s) returned without error, but from then on the walk never went back to height %d: the blocks above it were not delivered again under the updated filter (walk: %s; current block %s)", o.name, o.h, strings.Join(walk, " "), cursor.label)
+			return
+		}
 	}
 	tip := ch.best[len(ch.best)-1]
 	if !done && cursor != tip {
